@@ -409,6 +409,56 @@ void stats_commit_case() {
   g_case.clear();
 }
 
+#ifdef VF_LIBFUZZER
+// ------------------------------------------------------------------ libFuzzer mode
+// The same property, driven by libFuzzer: the fuzzer's bytes are the choice
+// sequence (two bytes per choice), so coverage feedback from the library steers
+// the structured generator. The harness TU is compiled with -Dmain=vf_harness_main;
+// its main() only registers the Harness here.
+}  // namespace vf
+int vf_harness_main(int argc, char **argv);
+namespace vf {
+static Harness g_fuzz_h;
+int engine_main(int, char **, const Harness &h) {
+  g_fuzz_h = h;
+  g_h = &g_fuzz_h;
+  g_prop = h.property_id;
+  const char *kp = getenv("VF_KNOWN");
+  if (kp) load_known(kp);
+  if (h.setup) h.setup();
+  atexit([] {
+    const char *d = getenv("VF_STATS_DIR");
+    if (d) {
+      g_out = d;
+      write_stats();
+    }
+    if (g_fuzz_h.teardown) g_fuzz_h.teardown();
+  });
+  return 0;
+}
+}  // namespace vf
+extern "C" int LLVMFuzzerInitialize(int *, char ***) {
+  char a0[] = "fuzz";
+  char *av[] = {a0, nullptr};
+  vf_harness_main(1, av);
+  return 0;
+}
+extern "C" int LLVMFuzzerTestOneInput(const uint8_t *data, size_t size) {
+  std::vector<uint32_t> ch;
+  ch.reserve(size / 2);
+  for (size_t i = 0; i + 1 < size; i += 2) ch.push_back((uint32_t)data[i] | ((uint32_t)data[i + 1] << 8));
+  vf::RunRes r = vf::run_inproc(ch);
+  vf::commit(vf::g_case);
+  if (!r.ok) {
+    fprintf(stderr, "ORACLE FAILURE property=%s symptom=%s\n%s\ncase: %s\n", vf::g_prop.c_str(), r.symptom.c_str(), r.detail.c_str(),
+            vf::g_case.desc.c_str());
+    fflush(nullptr);
+    __builtin_trap();
+  }
+  return 0;
+}
+namespace vf {
+#else
 int engine_main(int argc, char **argv, const Harness &h) {
   g_h = &h;
   g_prop = h.property_id;
@@ -718,5 +768,7 @@ int engine_main(int argc, char **argv, const Harness &h) {
   if (h.teardown) h.teardown();
   return rc_exit;
 }
+
+#endif  // VF_LIBFUZZER
 
 }  // namespace vf
